@@ -10,9 +10,13 @@ Command loops of `drv_c01` (core Lean only):
   drv_c01 ctype     `<t1> <t2>`                                            → result of Gen.getCommonType as (kind,size,unsigned)
   drv_c01 compile   `<t0,t1,..> <off0,off1,..> | <prefix expression>`      → `ok <type> <stack slots> <ins;;ins;;…>` | `none`
                     (Model/C01Expr `compileE`: the code of a whole side-effect-free expression tree, variable i at offi(%rbp))
-  drv_c01 compilex  `<t0,..> <off0,..> <toff0,..> | <prefix expression>`   → `ok <type> <stack slots> <temporaries> <nc 0|1> <pure 0|1> <ins;;…>` | `none`
+  drv_c01 compilex  `<t0,..> <off0,..> <toff0,..> <N> | <prefix expression>` → `ok <type> <stack slots> <temporaries> <nc 0|1> <pure 0|1> <lay 0|1> <ins;;…>` | `none`
                     (`compileX`: also `,` `=` `op=` `++` `--` on variables; hidden temporary k at toffk(%rbp);
-                     nc = the C11 no-conflict side condition of theorem C01_value_effects holds; pure = `compileE` gives the same code)
+                     nc = the C11 no-conflict side condition of theorem C01_value_effects holds; pure = `compileE` gives the same code;
+                     lay = `layoutOK`: variables and temporaries lie inside the N-byte frame, pairwise disjoint)
+  drv_c01 ptrseq    `<form> <index type> <element size> <offP> <offI> <tmp>`   → `<ins;;…>` | `none`
+                    (pointer arithmetic of parse.c new_add / new_sub on a pointer variable at offP(%rbp) and an index (or second
+                     pointer) at offI(%rbp): add | sub | diff | addassign | subassign | preinc | predec | postinc | postdec)
 -/
 import ChibiVerif.Spec.IntSpec
 import ChibiVerif.Model.X86
@@ -137,6 +141,8 @@ def specLines (ws : List String) : Option (List Line) :=
   | ["load", t] => do some (load (← tydOf? t))
   | ["store", t] => do some (store (← tydOf? t))
   | ["push"] => some [ins1 "push" (.r "%rax"), ins1 "pop" (.r "%rdi")]
+  | ["lea", d] => do some [.ins (ChibiVerif.C01.iLea (← d.toInt?))]
+  | ["imm", v] => do some [.ins (ChibiVerif.C01.iMovImm (← v.toInt?))]
   | _ => none
 
 def seqLine (line : String) : String :=
@@ -151,7 +157,7 @@ def memWith (a : Nat) (q : Nat) (rest : BitVec 64 → BitVec 8) : BitVec 64 → 
   fun x => if a ≤ x.toNat ∧ x.toNat < a + 8 then BitVec.ofNat 8 (q >>> (8 * (x.toNat - a))) else rest x
 
 /-- `spec | rax rdi rcx rdx [mem]`.  With the optional 5th number the state has the quadword `mem` at address 0x1000;
-    for `load` specs `%rax` = 0x1000 on entry; for `store` specs `%rsp` = 0x2000 and the quadword at 0x2000 is 0x1000
+    for `load` specs `%rax` = 0x1000 on entry; for `lea` specs `%rbp` = the second number; for `store` specs `%rsp` = 0x2000 and the quadword at 0x2000 is 0x1000
     (the object's address on top of the stack); for `push` `%rsp` = 0x2008.  The quadword at 0x1000 afterwards and `%rsp`
     are printed as 11th and 12th field. -/
 def x86Line (line : String) : String :=
@@ -164,10 +170,11 @@ def x86Line (line : String) : String :=
       let kind := ws.headD ""
       let rax := if kind = "load" then 0x1000 else a
       let rsp := if kind = "store" then 0x2000 else if kind = "push" then 0x2008 else 0
+      let rbp := if kind = "lea" then d else 0       -- `lea` specs: %rbp = the second number
       let s0 : X86.State := { regs := fun r => match r with
                                 | .rax => BitVec.ofNat 64 rax | .rdi => BitVec.ofNat 64 d
                                 | .rcx => BitVec.ofNat 64 c | .rdx => BitVec.ofNat 64 x
-                                | .rsp => BitVec.ofNat 64 rsp | _ => 0#64,
+                                | .rsp => BitVec.ofNat 64 rsp | .rbp => BitVec.ofNat 64 rbp | _ => 0#64,
                               mem := memWith 0x1000 q (memWith 0x2000 0x1000 (fun _ => 0#8)) }
       let is := ls.flatMap Line.instrs
       match X86.decodeAll is with
@@ -223,7 +230,7 @@ def compileXLine (line : String) : String :=
   match line.splitOn "|" with
   | [hd, ex] =>
     match words hd with
-    | [ts, os, tos] =>
+    | [ts, os, tos, ns] =>
       let tys := (csv ts).map ITy.ofString?
       let offs := (csv os).map String.toInt?
       let toffs := (csv tos).map String.toInt?
@@ -239,12 +246,39 @@ def compileXLine (line : String) : String :=
             let pure := match ChibiVerif.C01.compileE tl (fun i => ol.getD i 0) e with
               | some (t', code') => t' == t && code' == code
               | none => false
-            s!"ok {t.toString} {ChibiVerif.C01.depthX e} {k} {b01 (ChibiVerif.C01.noConflict e)} {b01 pure} " ++
+            let lay := match ns.toInt? with
+              | some n => ChibiVerif.C01.layoutOK tl (fun i => ol.getD i 0) (fun k => tol.getD k 0) k n
+              | none => false
+            s!"ok {t.toString} {ChibiVerif.C01.depthX e} {k} {b01 (ChibiVerif.C01.noConflict e)} {b01 pure} {b01 lay} " ++
               (if code.isEmpty then "empty" else ";;".intercalate (code.map Ins.render))
         | none => "none"
       | _ => "bad expr"
     | _ => "bad env"
   | _ => "bad line"
+
+def ptrSeqLine (line : String) : String :=
+  match words line with
+  | [form, ti, sz, op, oi, tmp] =>
+    match ITy.ofString? ti, sz.toInt?, op.toInt?, oi.toInt?, tmp.toInt? with
+    | some t, some size, some offP, some offI, some tmpOff =>
+      let cidx := ChibiVerif.C01.iLea offI :: ChibiVerif.C01.loadSeq t
+      let code : Option (List Ins) :=
+        match form with
+        | "add" => some (ChibiVerif.C01.ptrAddCode false t size cidx (ChibiVerif.C01.ptrVarCode offP))
+        | "sub" => some (ChibiVerif.C01.ptrAddCode true t size cidx (ChibiVerif.C01.ptrVarCode offP))
+        | "diff" => some (ChibiVerif.C01.ptrDiffCode size (ChibiVerif.C01.ptrVarCode offP) (ChibiVerif.C01.ptrVarCode offI))
+        | "addassign" => some (ChibiVerif.C01.ptrOpAssignCode false t size offP tmpOff cidx)
+        | "subassign" => some (ChibiVerif.C01.ptrOpAssignCode true t size offP tmpOff cidx)
+        | "preinc" => some (ChibiVerif.C01.ptrOpAssignCode false .i32 size offP tmpOff [ChibiVerif.C01.iMovImm 1])
+        | "predec" => some (ChibiVerif.C01.ptrOpAssignCode true .i32 size offP tmpOff [ChibiVerif.C01.iMovImm 1])
+        | "postinc" => some (ChibiVerif.C01.ptrPostCode false size offP tmpOff)
+        | "postdec" => some (ChibiVerif.C01.ptrPostCode true size offP tmpOff)
+        | _ => none
+      match code with
+      | some c => ";;".intercalate (c.map Ins.render)
+      | none => "none"
+    | _, _, _, _, _ => "bad"
+  | _ => "bad"
 
 partial def loop (h : IO.FS.Stream) (f : String → String) : IO UInt32 := do
   let line ← h.getLine
@@ -262,8 +296,9 @@ def main (args : List String) : IO UInt32 := do
   | "ctype" :: _ => loop stdin ctypeLine
   | "compile" :: _ => loop stdin compileLine
   | "compilex" :: _ => loop stdin compileXLine
+  | "ptrseq" :: _ => loop stdin ptrSeqLine
   | _ =>
-    IO.eprintln "usage: drv_c01 eval|seq|x86exec|ctype|compile|compilex"
+    IO.eprintln "usage: drv_c01 eval|seq|x86exec|ctype|compile|compilex|ptrseq"
     return 2
 
 end ChibiVerif.Driver.C01
